@@ -428,7 +428,10 @@ RevChoices(c, b) ==
     IN {<<E, cost(E)>> : E \in {F \in all : cost(F) <= b /\ (Has("rev.wrongkey") \/ \A e \in F : e.ok)}}
 
 \* a corrupt member no running honest member listens to any more sends nothing
-Dead(c) == \A h \in Honest : mem[h].st # "run" \/ c \notin Op(mem[h])
+Dead(c) ==
+    \A h \in Honest :
+        \/ mem[h].st # "run"
+        \/ IF "F5" \in Fixes /\ StageName \in {"A4", "A8"} THEN c \notin mem[h].snap ELSE c \notin Op(mem[h])
 
 AdvChoices(c, b) ==
     CASE StageName = "A1" ->
